@@ -152,7 +152,7 @@ class World:
             return (['load', mi, ti, di], lambda: canon(fn(W.DOCS[di])))
         _, mi, dk, fn = f
         vm, vi, oi = st_[2], st_[3], st_[4]
-        value = self.model(vm).realize(W.VALUES[vm][vi])
+        value = W.make_value(self.model(vm), W.VALUES[vm][vi])
         kw = W.JSON_OPTS[oi] if dk == 'json' else {}
         return (['dump', mi, dk, vm, vi, oi if dk == 'json' else 0], lambda: fn(value, **kw))
 
@@ -228,7 +228,7 @@ FIDS = list(range(6))
 call_strategy = st.one_of(
     st.tuples(st.just('load'), st.sampled_from(FIDS), st.integers(0, len(W.DOCS) - 1)).map(list),
     st.builds(lambda f, vm, vi, oi: ['dump', f, vm, vi % len(W.VALUES[vm]), oi],
-              st.sampled_from(FIDS), st.integers(0, 3), st.integers(0, 3), st.integers(0, 2)))
+              st.sampled_from(FIDS), st.integers(0, 3), st.integers(0, 4), st.integers(0, 2)))
 
 
 def make_machine(ctx):
@@ -252,7 +252,7 @@ def make_machine(ctx):
             self.w.step(['load', data.draw(st.sampled_from(fids)), di])
 
         @precondition(lambda self: any(f[0] == 'dump' for f in self.w.funcs.values()))
-        @rule(data=st.data(), vm=st.integers(0, 3), vi=st.integers(0, 3), oi=st.integers(0, 2),
+        @rule(data=st.data(), vm=st.integers(0, 3), vi=st.integers(0, 4), oi=st.integers(0, 2),
               own=st.booleans())
         def call_dump(self, data, vm, vi, oi, own):
             fids = sorted(k for k, f in self.w.funcs.items() if f[0] == 'dump')
